@@ -68,7 +68,7 @@ package builder
 // listener, the tree that was walked is the tree that was parsed, and that reporter holds no error at the end (nothing is
 // dropped on the way: the callbacks and the walk never shrink the list). C20: the builder does not panic.
 //@ func (builder *RuleBuilder) BuildRuleFromResource(name, version, resource) (err)
-//@   serves C17 C20
+//@   serves C17 C20 C16
 //@   opt alloc=1
 //@   requires builder != nil && libWF(builder.KnowledgeLibrary) && resource != nil
 //@   requires nodesInv() && filedStable() && (forall l Ref :: !$noL[l])
@@ -82,4 +82,4 @@ package builder
 //@   ensures[C17] reporteronparser: err == nil ==> $parseP[as($walkL, *antlr.GruleV3ParserListener).ErrorCallback]
 //@   ensures[C17] reporteronlexer: err == nil ==> $parseL[as($walkL, *antlr.GruleV3ParserListener).ErrorCallback]
 //@   ensures[C17] noerrorleft: err == nil ==> len(as($walkL, *antlr.GruleV3ParserListener).ErrorCallback.Errors) == 0
-//@   ensures[C17] rejectedharmless: err != nil ==> (old(has(builder.KnowledgeLibrary.Library, name + ":" + version)) ==> kbUntouched(old(builder.KnowledgeLibrary.Library[name + ":" + version])))
+//@   ensures[C17,C16] rejectedharmless: err != nil ==> (old(has(builder.KnowledgeLibrary.Library, name + ":" + version)) ==> kbUntouched(old(builder.KnowledgeLibrary.Library[name + ":" + version])))
